@@ -34,6 +34,21 @@ def run(ctx: Ctx):
     except SyntaxError as e:
         raise AnalysisError(f"{P_VALIDATORS}: {e}")
     it = microeval.Interp(tree, name=P_VALIDATORS)
+    # the verdict for a value must not depend on which values were validated before: no memoisation, no module-level
+    # container filled by the validators (functools caches key on equality, so 9, 9.0 and True/1 share an entry)
+    from ..genlint import Module as _Module, cross_run_state as _crs
+
+    class _Idx:
+        modules = {P_VALIDATORS: _Module(P_VALIDATORS, ctx.src.text(P_VALIDATORS))}
+    _n, hits = _crs(_Idx)
+    for rel, construct, msg, ln in hits:
+        ctx.fail("verdict-is-history-free", construct,
+                 msg.replace("results computed for an earlier model are reused",
+                             "the verdict cached for an equal value of another type (9.0 / True) is reused for the int")
+                    .replace("what an earlier run (another model, in the same process) left there changes this run's output",
+                             "earlier validations change later verdicts"), rel, ln)
+    if not hits:
+        ctx.ok("verdict-is-history-free")
     for vname, (lo, hi) in ORACLE.items():
         clo = it.globals.get(vname)
         if not isinstance(clo, microeval.Closure):
